@@ -263,6 +263,11 @@ def leg(ctx, rng, tmp, observe, what, families, which=None, n_per_family=1, prim
                         d.ds = d.ds.assign_coords({nm: new}) if nm in d.ds.coords else d.ds.assign({nm: new})
                         sp[key] = [float(v) for v in ints]
                     sp['label'] += ' integer coordinates'
+            elif fam == 'ugrid_quads1':
+                # all quadrilaterals, numbered from one, integer tables that need no padding (so none is declared): the arrays the
+                # convention works on can be the dataset's own
+                d = gen.ugrid(rng, mesh=gen.lattice_mesh(rng, 3, 2, variety=False, drop=False), invalid=False, supplied={'face_face'} if rng.random() < 0.5 else set(),
+                              start_index=1, fill='attr', transposed=False)
             elif fam == 'ugrid_edges':
                 # a one-based mesh that names an edge dimension and stores nothing on edges: the edges are derived
                 d = gen.ugrid(rng, w=6, h=4, invalid=False, supplied=set(), edge_dim_declared=True, phantom_edge_dim=True,
@@ -386,6 +391,14 @@ def battery(ds):
     """other questions a user may ask of the same dataset first - also ones that are refused - and what he may do with the
     answers (they are his: he may edit them)"""
     e = ds.ems
+    with warnings.catch_warnings():
+        warnings.simplefilter('ignore')
+        t0 = getattr(e, 'topology', None)
+        for name in ('face_face_array', 'face_edge_array', 'edge_face_array', 'edge_node_array'):
+            try:
+                getattr(t0, name)       # neighbour tables asked for before anything needed the face-node table
+            except Exception:       # noqa: BLE001
+                pass
     with warnings.catch_warnings():
         warnings.simplefilter('error')
         try:
@@ -756,6 +769,11 @@ def with_depth(rng, d):
     phys = (sp['n'] - 1 - lev) if sp['deep_first'] else lev
     vals = numpy.where(phys < wet, vals, numpy.nan)
     ds['tv_depthfield'] = xarray.DataArray(vals, dims=['k'] + gd)
+    tname = gen.TIME_NAMES.get(d.family, 'time')
+    tda = xarray.DataArray(numpy.array(['1990-01-01T00:00', '1990-01-02T12:00'], dtype='datetime64[ns]'), dims=['record'],
+                           attrs={'standard_name': 'time', 'coordinate_type': 'time'})
+    tda.encoding['units'] = 'days since 1990-01-01 00:00:00 +10'
+    ds = ds.assign_coords({tname: tda})
     d.ds = ds
     d.spec['depth_spec'] = sp
 
@@ -763,6 +781,13 @@ def with_depth(rng, d):
 def obs_floor(ds):
     from emsarray.operations import depth as depth_ops
     out = depth_ops.ocean_floor(ds, [c.name for c in ds.ems.depth_coordinates])
+    try:
+        acc = ds.ems.ocean_floor()          # the accessor's spelling of the same question
+        via = {str(v): bylabel(acc[v]) for v in sorted(map(str, acc.data_vars)) if str(v).startswith('tv_')}
+    except KeyError:
+        via = None
+    if via is not None:
+        return {'function': {str(v): bylabel(out[v]) for v in sorted(map(str, out.data_vars)) if str(v).startswith('tv_')}, 'accessor': via}
     return {str(v): bylabel(out[v]) for v in sorted(map(str, out.data_vars)) if str(v).startswith('tv_')}
 
 
@@ -790,20 +815,20 @@ def obs_transect(ds):
 
 RUNS = {
     'C01': (obs_index, 'index conversion', gen.FAMILIES + ['ugrid_edges'], None, ('lazy', 'raw', 'view_of_file', 'big_endian', 'narrow_tables')),
-    'C02': (obs_geometry, 'polygons, centres, lookups and spatial index', gen.FAMILIES + ['cf1d_int'], with_data, ('lazy', 'raw', 'view_of_file', 'big_endian', 'transposed_view', 'mixed_precision')),
+    'C02': (obs_geometry, 'polygons, centres, lookups and spatial index', gen.FAMILIES + ['cf1d_int', 'ugrid_quads1'], with_data, ('lazy', 'raw', 'view_of_file', 'big_endian', 'transposed_view', 'mixed_precision')),
     'C03': (obs_flatten, 'flatten and wind', gen.FAMILIES, with_data, None),
-    'C04': (obs_geometry, 'polygons and point lookups', gen.FAMILIES + ['cf1d_desc'], None, ('lazy', 'raw', 'view_of_file', 'big_endian', 'mixed_precision')),
-    'C05': (obs_select, 'point selection', gen.FAMILIES, with_data, None),
-    'C06': (obs_geometry, 'polygons, bounds and mask', gen.FAMILIES + ['cf1d_desc', 'cf1d_int', 'cf1d_bounds'], None, ('lazy', 'raw', 'view_of_file', 'big_endian', 'mixed_precision', 'raw_unsigned')),
+    'C04': (obs_geometry, 'polygons and point lookups', gen.FAMILIES + ['cf1d_desc', 'ugrid_quads1'], None, ('lazy', 'raw', 'view_of_file', 'big_endian', 'mixed_precision')),
+    'C05': (obs_select, 'point selection', gen.FAMILIES + ['ugrid_quads1'], with_data, None),
+    'C06': (obs_geometry, 'polygons, bounds and mask', gen.FAMILIES + ['cf1d_desc', 'cf1d_int', 'cf1d_bounds', 'ugrid_quads1'], None, ('lazy', 'raw', 'view_of_file', 'big_endian', 'mixed_precision', 'raw_unsigned')),
     'C07': (obs_clip_mask, 'clip masks', gen.FAMILIES, None, ('lazy', 'raw', 'view_of_file', 'big_endian')),
     'C10': (obs_topology, 'mesh tables and polygons', ['ugrid', 'ugrid_edges', 'ugrid'], None, ('lazy', 'raw', 'view_of_file', 'big_endian', 'narrow_tables', 'mixed_precision', 'raw_unsigned')),
     'C11': (obs_detect, 'convention detection', gen.FAMILIES, None, ('lazy', 'raw', 'view_of_file', 'big_endian')),
     'C12': (obs_floor, 'ocean floor', ['cf1d', 'cf2d', 'shoc_standard', 'ugrid'], with_depth, ('lazy', 'raw', 'view_of_file', 'big_endian', 'transposed_view')),
     'C13': (obs_normalize, 'depth normalisation', ['cf1d', 'shoc_simple', 'ugrid'], with_depth, ('lazy', 'raw', 'view_of_file', 'big_endian')),
-    'C14': (obs_triangulate, 'triangulation', gen.FAMILIES, None, ('lazy', 'raw', 'view_of_file', 'big_endian', 'mixed_precision')),
-    'C15': (obs_export, 'geometry export', gen.FAMILIES + ['cf1d_desc', 'cf1d_bounds'], None, ('lazy', 'raw', 'view_of_file', 'big_endian', 'mixed_precision')),
+    'C14': (obs_triangulate, 'triangulation', gen.FAMILIES + ['ugrid_quads1'], None, ('lazy', 'raw', 'view_of_file', 'big_endian', 'mixed_precision')),
+    'C15': (obs_export, 'geometry export', gen.FAMILIES + ['cf1d_desc', 'cf1d_bounds', 'ugrid_quads1'], None, ('lazy', 'raw', 'view_of_file', 'big_endian', 'mixed_precision')),
     'C18': (obs_transect, 'transect pieces and prepared data', ['cf1d', 'cf2d', 'ugrid'], with_depth, ('lazy', 'view_of_file', 'big_endian', 'transposed_view')),
-    'C19': (obs_plot, 'polygon collection', gen.FAMILIES, with_data, None),
+    'C19': (obs_plot, 'polygon collection', gen.FAMILIES + ['ugrid_quads1'], with_data, None),
 }
 
 
